@@ -474,6 +474,66 @@ func testRegistry(rt *rapid.T, st *RunStats) {
 				cls["component-shared-by-256-or-more-archetypes"] = true
 			}
 		},
+		"relationTypesAcrossWorlds": func(t *rapid.T) {
+			// IDs belong to a world: two fresh worlds register two relation types in opposite order and are then given
+			// the same []Relation (built with Rel[T], shared by buildRels) through a typed mapper
+			var cands []int
+			for i := 2 * comps.N; i < len(MapInsts); i++ {
+				if len(listOf(MapInsts[i].Mask&comps.RelMask)) >= 2 {
+					cands = append(cands, i)
+				}
+			}
+			inst := rapid.SampledFrom(cands).Draw(t, "mapper")
+			list := MapInsts[inst].Comps
+			var rl []int
+			for _, c := range list {
+				if comps.All[c].Relation {
+					rl = append(rl, c)
+				}
+			}
+			worlds := []*ecs.World{ecs.NewWorld(4), ecs.NewWorld(4)}
+			for k, wx := range worlds {
+				order := append([]int{}, rl...)
+				if k == 1 {
+					for i, j := 0, len(order)-1; i < j; i, j = i+1, j-1 {
+						order[i], order[j] = order[j], order[i]
+					}
+				}
+				for _, c := range order {
+					comps.Register(wx, c)
+				}
+			}
+			for k, wx := range worlds {
+				var tg []ecs.Entity
+				for range rl {
+					tg = append(tg, wx.NewEntity()) // the same handles in both worlds
+				}
+				var args []RelArg
+				for i, c := range rl {
+					pos := 0
+					for j, cc := range list {
+						if cc == c {
+							pos = j
+						}
+					}
+					args = append(args, RelArg{Pos: pos, Comp: c, Target: tg[i], Style: 1})
+				}
+				mp := MapInsts[inst].New(wx)
+				var e ecs.Entity
+				if p := try(func() { e = mp.NewEntity(make([]int64, len(list)), args) }); p != nil {
+					failf("registry|worlds|create", "world %d: creating an entity with relations given as Rel[T] panicked: %v", k, p)
+				}
+				for i, a := range args {
+					if got := mp.GetRelation(e, a.Pos); got != tg[i] {
+						failf("registry|worlds|relation", "world %d: relation %s given as Rel[T](%v) has target %v", k, comps.All[a.Comp].Name, tg[i], got)
+					}
+					if id := comps.Register(wx, a.Comp); wx.Unsafe().GetRelation(e, id) != tg[i] {
+						failf("registry|worlds|relation-id", "world %d: ID-based look-up of relation %s (ID %d) gives %v, want %v", k, comps.All[a.Comp].Name, id.Index(), wx.Unsafe().GetRelation(e, id), tg[i])
+					}
+				}
+			}
+			cls["relation-types-across-two-worlds"] = true
+		},
 		"removeTracked": func(t *rapid.T) {
 			var cand []int
 			for i, x := range ents {
